@@ -21,16 +21,21 @@ THEOREMS = [
     "VK.sum_before_half",
     "VK.fill_one",
     "VK.C06_fill_correct",
+    "VK.C06_prefShareR_cases",
+    "VK.prefShareR_untied",
+    "VK.h2h_eq_flat",
 ]
-RULE = ("cases = profile of untied ranked ballots (2-6 candidates, partial ballots, rational weights, zero-vote "
-        "candidates; 35% engineered: Condorcet cycles of length 3-5, nested cycles, exact pairwise ties) -> "
+RULE = ("cases = profile of ranked ballots (2-6 candidates, partial ballots, rational weights, zero-vote "
+        "candidates; 30% of the random profiles with tied positions; 35% engineered: Condorcet cycles of length 3-5, nested cycles, exact pairwise ties) -> "
         "pairwise_dict, dominating_tiers, has/get_condorcet_winner, DominatingSets, CondoBorda(m); non-trivial = at least "
         "two ballots and three candidates; distinct = distinct (profile, m)")
 TRUSTED = ["modelled, not verified: networkx DiGraph/has_path (the model has its own bounded closure, proved equal to "
            "reachability); itertools.permutations in ballot_fill (the model's declarative head-to-head share is compared "
            "with its own enumeration mirror on every case and with the implementation)"]
-ASSUMPTIONS = ["positive weights; untied ballots over declared candidates; at least one ballot (otherwise F-C01-g)"]
-EXPLANATION = ("Theorems over every profile: margins are antisymmetric and follow the listed/unlisted rule; the bounded "
+ASSUMPTIONS = ["positive weights; ballots over declared candidates (tied positions allowed); at least one ballot (otherwise F-C01-g)"]
+EXPLANATION = ("Theorems over every profile: margins are antisymmetric and follow the listed/unlisted rule, two candidates "
+               "tied in one position being ranked neither way (C06_prefShareR_cases; the untied count the ballot_fill "
+               "enumeration is proved equal to is the special case, prefShareR_untied / h2h_eq_flat); the bounded "
                "frontier expansion computes exactly reachability; tiers partition the candidates, every member of a higher "
                "tier strictly beats every member of a lower one, no tier can be split, the top tier is contained in every "
                "dominating set, it is a single candidate iff a Condorcet winner exists, DominatingSets elects it.")
@@ -219,8 +224,6 @@ def run_case(vk, case):
     elif cb["status"] != "ok":
         fail("condoborda-raises", cb.get("msg", ""))
     req = {"op": "pairwise", "profile": gen.model_profile(spec)}
-    if case["kind"] == "random-tied":
-        req = None      # the Lean model of the pairwise graph covers untied ballots; tied ballots are carried by the monitors
     expect = {"ok": {"dict": sorted([a, b, rat(v)] for (a, b), v in pd.items()), "tiers": tiers, "fill_agrees": True}}
     return {"req": req, "expect": expect, "monitors": monitors, "tags": tags,
             "nontrivial": len(spec["b"]) > 1 and n > 2}
